@@ -150,6 +150,14 @@ def secondaryBlockIssuance (e : EpochExt) (n secondaryEpochIssuance : Nat) : Opt
     if n < stop then safeAdd g2 1 else some g2
   else some g2
 
+/-- `EpochExt::number_with_fraction` (the `debug_assert!`s of debug builds are not modelled; the
+`number - start_number` subtraction panics on underflow).  The contextual `EpochVerifier`
+(verification/contextual) accepts a block iff `header.epoch()` equals this value and
+`header.compact_target()` equals the epoch's. -/
+def numberWithFraction (e : EpochExt) (n : Nat) : Option Nat := do
+  let idx ← subChk n e.start
+  some (enfPack e.number idx e.length)
+
 /-- configurable consensus parameters (builder setters exist for all of them) -/
 structure Params where
   T : Nat          -- epoch_duration_target (seconds)
